@@ -486,7 +486,7 @@ class DiffHandler(BaseHandler):
                                              'url': url,
                                              'upstream_code': code})
 
-        if response and expected_hash:
+        if response and expected_hash is not None:
             actual_hash = hashlib.sha256(response.body).hexdigest()
             if actual_hash != expected_hash:
                 raise PublicError(502,
